@@ -67,9 +67,17 @@ def lift_transformed_difference(t: Term) -> Term:
             return linear_in(A[2], P)
         return False
     for x in walk(t):
-        if not (x[0] == "bin" and x[1] == "-" and x[2][0] == "sub" and x[3][0] == "sub" and x[2][1] == x[3][1]):
+        if not (x[0] == "bin" and x[1] == "-"):
             continue
-        A = x[2][1]
+        # g(P)[a] - g(P)[b], or one side the whole array: g(P)[a] - g(P)  /  g(P) - g(P)[b]
+        if x[2][0] == "sub" and x[3][0] == "sub" and x[2][1] == x[3][1]:
+            A, ia, ib = x[2][1], x[2][2], x[3][2]
+        elif x[2][0] == "sub" and x[2][1] == x[3]:
+            A, ia, ib = x[3], x[2][2], None
+        elif x[3][0] == "sub" and x[3][1] == x[2]:
+            A, ia, ib = x[2], None, x[3][2]
+        else:
+            continue
         ps = pos_atoms(A)
         if (A[0] == "attr" and A[2] == "positions") or len(set(ps)) != 1:
             continue
@@ -98,7 +106,7 @@ def lift_transformed_difference(t: Term) -> Term:
                 continue
         except Exception:  # noqa
             continue
-        R = ("bin", "-", ("sub", P, x[2][2]), ("sub", P, x[3][2]))
+        R = ("bin", "-", ("sub", P, ia) if ia is not None else P, ("sub", P, ib) if ib is not None else P)
         gR = subst(A, lambda y: R if y == P else None)
         return subst(t, lambda y: gR if y == x else None)
     return t
@@ -120,6 +128,8 @@ def inline_image(t: Term, record: bool = True):
         t = lift_transformed_difference(t)
     except Exception:  # noqa
         t = t0
+    while t[0] == "sub" and t[2][0] in ("loopvar", "cvar"):
+        t = t[1]            # one row of the imaged array picked by a loop variable: the array is what is decided
     try:
         def pos_atom(z):
             while True:
